@@ -213,7 +213,9 @@ class FactDomain(EventDomain):
             while isinstance(base, ast.Subscript):
                 base = base.value
             txt = ast.unparse(base)
-            facts = frozenset(f for f in facts if txt not in f[1])
+            # writing INTO an object changes nothing about which object the name holds: facts about its identity (None-ness) survive
+            ident = {'%s is None' % txt, '%s == None' % txt, '%s is not None' % txt, '%s != None' % txt}
+            facts = frozenset(f for f in facts if txt not in f[1] or f[1] in ident)
         return (((facts, user), consts),)
 
     def on_call(self, call, state):
